@@ -145,6 +145,13 @@ type Pool struct {
 	New   func() any
 	real  sync.Pool
 	items []any
+	epoch int64 // a pool (possibly a package-level variable) starts every execution empty
+}
+
+func (p *Pool) fresh() {
+	if e := vsched.Epoch(); p.epoch != e {
+		p.epoch, p.items = e, nil
+	}
 }
 
 func (p *Pool) Get() any {
@@ -152,6 +159,7 @@ func (p *Pool) Get() any {
 		p.real.New = p.New
 		return p.real.Get()
 	}
+	p.fresh()
 	if n := len(p.items); n > 0 {
 		x := p.items[n-1]
 		p.items = p.items[:n-1]
@@ -168,5 +176,6 @@ func (p *Pool) Put(x any) {
 		p.real.Put(x)
 		return
 	}
+	p.fresh()
 	p.items = append(p.items, x)
 }
